@@ -95,8 +95,14 @@ def atom_or_canon(n):
 
 
 def vocabulary(n):
+    """names and attribute names an expression is built from (names of called functions / methods excluded:
+    swapping np.sum for np.max is a different formula over the same vocabulary)"""
     out = set()
+    funcs = set(id(x.func) for x in ast.walk(n) if isinstance(x, ast.Call))
     for x in ast.walk(n):
+        if id(x) in funcs:
+            if isinstance(x, ast.Attribute): continue
+            if isinstance(x, ast.Name): continue
         if isinstance(x, ast.Name): out.add(x.id)
         elif isinstance(x, ast.Attribute): out.add('.' + x.attr)
     return out
@@ -109,7 +115,9 @@ def compare(actual, expected_src, alternatives=()):
         if canon(e) == ca: return 'equal'
     va = vocabulary(actual)
     for e in exp_nodes:
-        if vocabulary(e) == va: return 'different'
+        ve = vocabulary(e)
+        # same vocabulary, or the code simply drops some of the expected operands
+        if ve == va or (va < ve and va): return 'different'
     return 'incomparable'
 
 
